@@ -266,8 +266,8 @@ def run_case(case):
     res = crashx.inject(wl, base, case["rel_paths"], op, d)
     def args_of(t):
         a = t.split(" = ")[0].split("(", 1)[-1].rstrip(") ")[:80]
-        if wl.endswith("p"):  # parallel creation: the order of the records within a patch file is up to the real
-            a = re.sub(r'>, ".*', ">", a)  # scheduler, compare the call and its file only
+        if wl.endswith("p"):  # parallel creation: which patch the writer serves k-th is up to the real scheduler;
+            a = ""  # the crash point "k-th mutating call of the writer process" is compared by call name only
         return a
 
     if not res["matched"] or args_of(norm(res["tail"], base)) != args_of(case["text"]):
